@@ -6,6 +6,8 @@
 set -u
 [ -d /tmp/repo-dev ] || git -C /repo worktree add --detach /tmp/repo-dev HEAD >/dev/null 2>&1
 (cd /tmp/repo-dev && git checkout -q --detach "$(git -C /repo rev-parse HEAD)" && git checkout -- .)
+# DEV_PATCH=<file>: apply a (seeded) patch to the scratch worktree only
+if [ -n "${DEV_PATCH:-}" ]; then (cd /tmp/repo-dev && git apply "$DEV_PATCH") || exit 2; fi
 mkdir -p /tmp/vdev /tmp/dev-out
 rsync -a --delete --exclude target --exclude replays /verif/vsim /verif/vreal /verif/vsim-real /verif/check /verif/known /verif/known_findings.json /tmp/vdev/
 cp /verif/known_findings.json /tmp/dev-out/; rsync -a /verif/known /tmp/dev-out/
